@@ -34,6 +34,7 @@ func zzSymBytes12(n int) []byte {
 func zzH_C12_recvData() {
 	t := zzTransfer12()
 	t.transferConfig.Binary = true
+	t.transferConfig.MaxBufSize = int64(verifNondetInt()) // the bufsize member of the peer's CFG: any integer
 	n := verifNondetInt()
 	t.buffer.addBuffer([]byte("#DATA:" + strconv.FormatInt(int64(n), 10) + "\n"))
 	t.buffer.addBuffer([]byte("abcdefgh"))
@@ -51,6 +52,7 @@ func zzH_C12_recvData() {
 func zzH_C12_recvBinaryData() {
 	t := zzTransfer12()
 	t.transferConfig.Binary = true
+	t.transferConfig.MaxBufSize = int64(verifNondetInt()) // the bufsize member of the peer's CFG: any integer
 	t.transferConfig.Protocol = verifNondetRange(2, 4)
 	n := verifNondetInt()
 	t.buffer.addBuffer([]byte("#DATA:" + strconv.FormatInt(int64(n), 10) + "\n"))
